@@ -7,6 +7,7 @@
 */
 #include "vh.h"
 #include <stddef.h>
+#include "g711ref.h"
 
 enum { K_STR, K_BEXT, K_CART, K_CUE, K_INST, K_CHMAP, K_N } ;
 static const char *kn [] = { "strings", "bext", "cart", "cues", "instrument", "chanmap" } ;
@@ -187,6 +188,7 @@ static void run_case (int format, int ch, int mask, int late_mask, int order_see
 		nw [a] = 0 ; ag [b] = 0 ; snprintf (lq, sizeof (lq), "|late-new:%s|late-again:%s", nw, ag) ; }
 	snprintf (q, sizeof (q), "%s%s", (format & SF_FORMAT_ENDMASK) == SF_ENDIAN_BIG ? (((mask | late_mask) & 12) ? "|BE+cue-or-cart" : "|BE") : "", late_mask ? "|with-late-items" : "") ;
 	for (i = 0 ; i < N * ch ; i++) audio [i] = (short) (i * 31 + 7) ;
+	if ((format & SF_FORMAT_SUBMASK) == SF_FORMAT_ULAW) for (i = 0 ; i < N * ch ; i++) audio [i] = (short) ref_ulaw_dec ((unsigned) (i * 31 + 7) & 0xff) ;	/* values u-law represents exactly */
 	gen_meta (&me, format, ch, mask) ; gen_meta (&lm, format, ch, late_mask) ;
 	memset (&m, 0, sizeof (m)) ;
 	s = vh_open_w (&m, format, ch, 44100, NULL) ; if (!s) { free (audio) ; return ; }
